@@ -77,6 +77,33 @@ inline long double protection(const World& w, const std::string& path, int64_t r
   return (long double)rawProt(*c) * f;
 }
 
+// effective swap values: min / max over the ancestors (root = host swap)
+struct EffSwap {
+  int64_t max{0}, free{0};
+  double util{0};
+  bool utilDontCare{false};
+};
+inline EffSwap effSwap(const World& w, const std::string& path) {
+  SysCtx sys = sysOf(w);
+  EffSwap e;
+  e.max = (int64_t)sys.swaptotal;
+  e.free = (int64_t)(sys.swaptotal - sys.swapused);
+  e.util = sys.swaptotal ? (double)sys.swapused / (double)sys.swaptotal : 0.0;
+  auto comps = vpm::splitPath(path);
+  for (size_t i = 1; i <= comps.size(); i++) {
+    const Cg* a = w.find(vpm::joinPath(comps, i));
+    if (!a) break;
+    e.max = std::min(e.max, a->swap_max);
+    e.free = std::min(e.free, a->swap_max - a->swap_current);
+    if (a->swap_max == 0) {
+      e.utilDontCare = true;
+    } else {
+      e.util = std::max(e.util, (double)a->swap_current / (double)a->swap_max);
+    }
+  }
+  return e;
+}
+
 struct Hist { // what the implementation remembered from the previous tick
   bool have{false};
   Json::Value prev; // previous observation of the same cgroup identity
